@@ -1,4 +1,6 @@
-(* ShippedProofs.v -- C15: the monitor of Shipped.v accepts every run of the model.
+(* ShippedProofs.v -- C15/C16: the monitors of Shipped.v accept every run of the model
+   (the strict one, wire_strict_ok, unless the stream is cut exactly after a length header;
+   the relaxed one, c15_ok, always).
 
    Route (framed codecs):
      1. [run_collect]: before the first Close the machine appends one entry (payload, tree) to
@@ -6,9 +8,11 @@
         (expectation, frame length) pair per entry: [ent]; the expectation of an entry is what the
         reader makes of it ([expo]): for Send by the round-trip theorems of WireProofs, for
         SendRaw by unfolding.
-     2. [close_obs_eq]: what the reader yields at Close ([close_obs]) is what the monitor wants
-        ([want_of]): no cut -> framing_any_chunking_holds; a cut inside the last frame ->
-        framing_truncated_holds (cut <> 4, i.e. not exactly after the length header).
+     2. [close_obs_gen]: what the reader yields at Close ([close_obs]) is the whole frames followed
+        by [close_tail]: no cut -> framing_any_chunking_holds; a cut inside the last frame ->
+        framing_truncated_holds.  [close_obs_eq]: for cut <> 4 (not exactly after the length
+        header) that is what the strict monitor wants ([want_of]); [close_obs_relaxed]: for every
+        cut it is something the relaxed monitor accepts.
      3. after Close the machine is silent ([run_closed]).
    Channels: [chan_view] of a run is a run of the channel model; fifo_holds. *)
 From Coq Require Import String Ascii.
@@ -138,10 +142,10 @@ Proof.
       cbn [ch_run_from chan] in *. rewrite E. reflexivity.
 Qed.
 
-Theorem c15_monitor_channels : forall c ops,
-  is_framed (codec c) = false -> c15_ok c ops (fst (run c ops)) = true.
+Theorem strict_monitor_channels : forall c ops,
+  is_framed (codec c) = false -> wire_strict_ok c ops (fst (run c ops)) = true.
 Proof.
-  intros c ops Hf. unfold c15_ok, run. rewrite Hf.
+  intros c ops Hf. unfold wire_strict_ok, run. rewrite Hf.
   destruct (chan_view_run c (is_c2s ops) Hf ops init) as [co Hco]. rewrite Hco.
   exact (fifo_holds wmsg wmsg_eqb wmsg_eqb_refl (chan_cap (codec c)) co).
 Qed.
@@ -175,15 +179,15 @@ Definition want_of (c : cfg) (es : list (obs * nat)) : list obs :=
 Definition all_nil (rt : list (list obs)) : bool :=
   forallb (fun l => match l with [] => true | _ => false end) rt.
 
-Lemma framed_ok_eq c ops tr :
-  framed_ok c ops tr =
+Lemma framed_strict_ok_eq c ops tr :
+  framed_strict_ok c ops tr =
   match collect (codec c) (is_c2s ops) ops tr with
   | None => false
   | Some (_, None, _, _) => true
   | Some (es, Some got, _, rt) => list_eqb obs_eqb got (want_of c es) && all_nil rt
   end.
 Proof.
-  unfold framed_ok, want_of, kept_of, total, lastlen, all_nil.
+  unfold framed_strict_ok, want_of, kept_of, total, lastlen, all_nil.
   destruct (collect (codec c) (is_c2s ops) ops tr) as [[[[es cl] ro] rt]|]; [|reflexivity].
   destruct cl as [got|]; [|reflexivity].
   match goal with |- context [whole_frames es ?k] => destruct (whole_frames es k) as [items b] end.
@@ -270,10 +274,17 @@ Qed.
 (* ------------------------------------------------------------------------------------------ *)
 (* Close: the reader yields what the monitor wants *)
 
-Lemma close_obs_eq c c2s W : cut c <> 4%nat -> Forall fits W ->
-  close_obs c c2s W = want_of c (map (ent (codec c) c2s) W).
+(* how the stream ends, given whether it ends on a frame boundary: inside a frame the reader
+   reports an error, except exactly after the 4-byte length header (tokio-util's decode_eof) *)
+Definition close_tail (c : cfg) (boundary : bool) : list obs :=
+  if boundary then [OEnd] else if Nat.eqb (cut c) 4 then [OEnd] else [OStreamErr; OEnd].
+
+Lemma close_obs_gen c c2s W : Forall fits W ->
+  close_obs c c2s W =
+  let '(items, b) := whole_frames (map (ent (codec c) c2s) W) (kept_of c (map (ent (codec c) c2s) W)) in
+  items ++ close_tail c b.
 Proof.
-  intros Hcut HW. unfold close_obs, want_of.
+  intros HW. unfold close_obs.
   destruct W as [|w0 W0] using rev_ind.
   - (* nothing written *)
     try clear IHW0.
@@ -322,8 +333,7 @@ Proof.
       2:{ symmetry. apply firstn_skipn. }
       2:{ apply concat_split_chunks. }
       rewrite firstn_length_le by lia.
-      replace (Nat.eqb (cut c) 4) with false by (symmetry; apply Nat.eqb_neq; exact Hcut).
-      rewrite decode_outs_frames. cbn [decode_outs].
+      rewrite decode_outs_frames.
       assert (Hk : kept_of c (map E F ++ [E wl]) = (total (map E F) + cut c)%nat).
       { unfold kept_of. rewrite Hlast, Htot.
         replace (Nat.eqb (cut c) 0) with false by (symmetry; apply Nat.eqb_neq; exact E0).
@@ -335,7 +345,7 @@ Proof.
       replace (Nat.leb (length (frame (fst wl))) (cut c)) with false
         by (symmetry; apply Nat.leb_gt; exact E1).
       replace (Nat.eqb (cut c) 0) with false by (symmetry; apply Nat.eqb_neq; exact E0).
-      rewrite app_nil_r. reflexivity.
+      rewrite app_nil_r. unfold close_tail. destruct (Nat.eqb (cut c) 4); reflexivity.
     + (* the cut keeps the whole last frame *)
       apply Nat.ltb_ge in E1. rewrite firstn_all2 by exact E1.
       rewrite <- stream_of_snoc.
@@ -354,6 +364,17 @@ Proof.
       rewrite Hk. replace (map E F ++ [E wl]) with (map E (F ++ [wl]) ++ [])
         by (rewrite app_nil_r, map_app; reflexivity).
       unfold E. rewrite whole_frames_prefix. cbn [whole_frames Nat.eqb]. rewrite app_nil_r. reflexivity.
+Qed.
+
+(* the strict monitor's form: the cut is not exactly after the length header *)
+Lemma close_obs_eq c c2s W : cut c <> 4%nat -> Forall fits W ->
+  close_obs c c2s W = want_of c (map (ent (codec c) c2s) W).
+Proof.
+  intros Hcut HW. rewrite (close_obs_gen c c2s W HW). unfold want_of, close_tail.
+  destruct (whole_frames (map (ent (codec c) c2s) W) (kept_of c (map (ent (codec c) c2s) W)))
+    as [items b].
+  replace (Nat.eqb (cut c) 4) with false by (symmetry; apply Nat.eqb_neq; exact Hcut).
+  destruct b; reflexivity.
 Qed.
 
 (* ------------------------------------------------------------------------------------------ *)
@@ -523,13 +544,13 @@ Qed.
 (* ------------------------------------------------------------------------------------------ *)
 (* C15 *)
 
-Theorem c15_monitor_framed : forall c ops,
+Theorem strict_monitor_framed : forall c ops,
   is_framed (codec c) = true ->
   Forall (op_wf (is_c2s ops)) ops ->
   cut c <> 4%nat ->
-  c15_ok c ops (fst (run c ops)) = true.
+  wire_strict_ok c ops (fst (run c ops)) = true.
 Proof.
-  intros c ops Hf Hwf Hcut. unfold c15_ok, run. rewrite Hf, framed_ok_eq.
+  intros c ops Hf Hwf Hcut. unfold wire_strict_ok, run. rewrite Hf, framed_strict_ok_eq.
   destruct (run_collect c (is_c2s ops) Hf ops init eq_refl Hwf)
     as (ws & cl & ro & rt & Hcol & Hfits & Hcl).
   rewrite Hcol. destruct cl as [got|]; [|reflexivity].
@@ -538,20 +559,20 @@ Proof.
   rewrite (list_eqb_refl obs_eqb obs_eqb_refl). reflexivity.
 Qed.
 
-Theorem c15_monitor_holds : forall c ops,
+Theorem strict_monitor_holds : forall c ops,
   Forall (op_wf (is_c2s ops)) ops ->
   cut c <> 4%nat ->
-  c15_ok c ops (fst (run c ops)) = true.
+  wire_strict_ok c ops (fst (run c ops)) = true.
 Proof.
   intros c ops Hwf Hcut. destruct (is_framed (codec c)) eqn:Hf.
-  - apply c15_monitor_framed; assumption.
-  - apply c15_monitor_channels; assumption.
+  - apply strict_monitor_framed; assumption.
+  - apply strict_monitor_channels; assumption.
 Qed.
 
 (* the excluded corner: a stream cut exactly after a 4-byte length header reads as a clean
    end-of-stream (tokio-util's decode_eof), which the monitor rejects *)
-Lemma c15_header_only_refuted : exists c ops,
-  Forall (op_wf (is_c2s ops)) ops /\ cut c = 4%nat /\ c15_ok c ops (fst (run c ops)) = false.
+Lemma strict_header_only_refuted : exists c ops,
+  Forall (op_wf (is_c2s ops)) ops /\ cut c = 4%nat /\ wire_strict_ok c ops (fst (run c ops)) = false.
 Proof.
   exists {| codec := TBincode; chunks := []; cut := 4 |},
          [Send (MC (CCancel default_trace 1)); Close].
@@ -562,4 +583,100 @@ Proof.
     + split; exact I.
   - reflexivity.
   - vm_compute. reflexivity.
+Qed.
+
+(* ------------------------------------------------------------------------------------------ *)
+(* C15 proper: the relaxed monitor (no condition on the cut position) *)
+
+Definition relaxed_ok (c : cfg) (es : list (obs * nat)) (got : list obs) : bool :=
+  let '(items, boundary) := whole_frames es (kept_of c es) in
+  list_eqb obs_eqb got (items ++ [OEnd]) ||
+  (negb boundary && list_eqb obs_eqb got (items ++ [OStreamErr; OEnd])).
+
+Lemma framed_ok_eq c ops tr :
+  framed_ok c ops tr =
+  match collect (codec c) (is_c2s ops) ops tr with
+  | None => false
+  | Some (_, None, _, _) => true
+  | Some (es, Some got, _, rt) => relaxed_ok c es got && all_nil rt
+  end.
+Proof.
+  unfold framed_ok, relaxed_ok, kept_of, total, lastlen, all_nil.
+  destruct (collect (codec c) (is_c2s ops) ops tr) as [[[[es cl] ro] rt]|]; [|reflexivity].
+  destruct cl as [got|]; [|reflexivity].
+  match goal with |- context [whole_frames es ?k] => destruct (whole_frames es k) as [items b] end.
+  reflexivity.
+Qed.
+
+(* whatever the strict monitor wants, the relaxed one accepts *)
+Lemma strict_relaxed c es got rt :
+  list_eqb obs_eqb got (want_of c es) && all_nil rt = true ->
+  relaxed_ok c es got && all_nil rt = true.
+Proof.
+  unfold want_of, relaxed_ok. destruct (whole_frames es (kept_of c es)) as [items b].
+  intros H. apply andb_true_iff in H. destruct H as [H1 H2]. rewrite H2.
+  destruct b; rewrite H1; cbn [negb andb]; [reflexivity|]. rewrite orb_true_r. reflexivity.
+Qed.
+
+(* the strict monitor implies the relaxed one (any trace, framed or not) *)
+Lemma strict_implies_c15 : forall c ops tr, wire_strict_ok c ops tr = true -> c15_ok c ops tr = true.
+Proof.
+  intros c ops tr. unfold wire_strict_ok, c15_ok.
+  destruct (is_framed (codec c)); [|exact (fun H => H)].
+  rewrite framed_strict_ok_eq, framed_ok_eq.
+  destruct (collect (codec c) (is_c2s ops) ops tr) as [[[[es cl] ro] rt]|]; [|exact (fun H => H)].
+  destruct cl as [got|]; [|exact (fun H => H)].
+  apply strict_relaxed.
+Qed.
+
+(* Close, for every cut: the reader's items are accepted by the relaxed monitor *)
+Lemma close_obs_relaxed c c2s W : Forall fits W ->
+  relaxed_ok c (map (ent (codec c) c2s) W) (close_obs c c2s W) = true.
+Proof.
+  intros HW. unfold relaxed_ok. rewrite (close_obs_gen c c2s W HW). unfold close_tail.
+  destruct (whole_frames (map (ent (codec c) c2s) W) (kept_of c (map (ent (codec c) c2s) W)))
+    as [items b].
+  destruct b; [|destruct (Nat.eqb (cut c) 4)];
+    rewrite (list_eqb_refl obs_eqb obs_eqb_refl); cbn [negb andb orb]; try reflexivity.
+  apply orb_true_r.
+Qed.
+
+Theorem c15_monitor_framed : forall c ops,
+  is_framed (codec c) = true ->
+  Forall (op_wf (is_c2s ops)) ops ->
+  c15_ok c ops (fst (run c ops)) = true.
+Proof.
+  intros c ops Hf Hwf. unfold c15_ok, run. rewrite Hf, framed_ok_eq.
+  destruct (run_collect c (is_c2s ops) Hf ops init eq_refl Hwf)
+    as (ws & cl & ro & rt & Hcol & Hfits & Hcl).
+  rewrite Hcol. destruct cl as [got|]; [|reflexivity].
+  destruct Hcl as [-> Hrt]. cbn [written init app].
+  rewrite (close_obs_relaxed c (is_c2s ops) ws Hfits), Hrt. reflexivity.
+Qed.
+
+Theorem c15_monitor_channels : forall c ops,
+  is_framed (codec c) = false -> c15_ok c ops (fst (run c ops)) = true.
+Proof.
+  intros c ops Hf. apply strict_implies_c15. apply strict_monitor_channels. exact Hf.
+Qed.
+
+(* C15 proper: no condition on the cut position *)
+Theorem c15_monitor_holds : forall c ops,
+  Forall (op_wf (is_c2s ops)) ops ->
+  c15_ok c ops (fst (run c ops)) = true.
+Proof.
+  intros c ops Hwf. destruct (is_framed (codec c)) eqn:Hf.
+  - apply c15_monitor_framed; assumption.
+  - apply c15_monitor_channels; assumption.
+Qed.
+
+(* the header-only cut, which the strict monitor rejects (strict_header_only_refuted), is
+   accepted by the relaxed one: the implication above is strict *)
+Lemma c15_header_only_accepted : exists c ops,
+  cut c = 4%nat /\ wire_strict_ok c ops (fst (run c ops)) = false /\
+  c15_ok c ops (fst (run c ops)) = true.
+Proof.
+  exists {| codec := TBincode; chunks := []; cut := 4 |},
+         [Send (MC (CCancel default_trace 1)); Close].
+  split; [reflexivity|]. split; vm_compute; reflexivity.
 Qed.
